@@ -383,6 +383,19 @@ pub fn generate_c16(seed: u64, run: u64, corpus: &Corpus, tier: Tier, stats: &mu
         for mode in [Mode::Files, Mode::Check] {
             cases.push(base_case("C16", seed, run, &opts, mode, vec![SimFile::new(&path, reference.stdout.clone())]));
         }
+        // ... and the same formatted text with a trailing comment spelled in a non-canonical
+        // byte form of a legacy encoding
+        let forms = noncanonical_forms(enc.enc);
+        if !forms.is_empty() && reference.stdout.ends_with(b"\n") {
+            let mut b = reference.stdout.clone();
+            b.extend_from_slice(b"// ");
+            let form: &Vec<u8> = rng.pick(&forms[..]);
+            b.extend_from_slice(form);
+            b.push(b'\n');
+            for mode in [Mode::Files, Mode::Check] {
+                cases.push(base_case("C16", seed, run, &opts, mode, vec![SimFile::new(&path, b.clone())]));
+            }
+        }
     }
     // seeded fault plans
     let n_fault = 3;
